@@ -26,7 +26,172 @@ def _block_value(raw: str) -> bool:
     return result(got == exp, reached=len(exp) > 0)
 
 
+# ------------------------------------------------------------------ spans
+from py_gql.lang import ast as A, parse  # noqa: E402
+from py_gql.lang.parser import parse_type, parse_value  # noqa: E402
+from vf.spec import pick  # noqa: E402
+
+GAPS = (" ", "", ",", "\n", "\t", "\r\n", "#c\n", "\ufeff", " , ", "\r")
+
+SPAN_SOURCES = (
+    ("document", 'query Q($a: [Int!]! = [1, -2.5e3] @d, $b: T) @d1(a: 1, b: $a) { al: f(x: 1.5, y: "s\\n", z: {k: [true, null, E, $b], j: {}}) @d { g ...F @d ... on T @d { h } ... { i } } j } '
+                 'fragment F on T @d { k } mutation { m(s: """b\n  c""") } { n }'),
+    ("document_ts", 'schema @d { query: Q mutation: M } "sd" scalar S1 @d """od""" type O implements I & J @d { "fd" f("ad" a: [Int!]! = [1] @d, b: Int): [T!]! @d g: T } '
+                    'extend type O implements K @d { i: Int } interface I @d { f: Int } union U @d = | A | B extend union U = C enum E @d { "vd" X @d Y } '
+                    'input In @d { a: Int = 1 @d b: [In] } directive @x(a: Int = 1, b: Int) on FIELD | QUERY extend schema @d extend scalar S1 @d'),
+    ("document_fragvars", "fragment F($fv: Int = 3 @d) on T { k ...G } { a }"),
+)
+
+
+def span_tokens(text):
+    return [(k, a, b, text[a:b]) for (k, a, b, v) in R.tokens(text)]
+
+
+_SPAN_TOKENS = [span_tokens(t) for _, t in SPAN_SOURCES]
+
+
+def needs_space(prev, nxt):
+    pk, nk = prev[0], nxt[0]
+    wordy = ("Name", "Int", "Float")
+    if pk in wordy and nk in wordy:
+        return True
+    if pk in ("Int", "Float") and nxt[3] == "...":
+        return True
+    if pk in ("String", "BlockString") and nk in ("String", "BlockString"):
+        return True
+    return False
+
+
+def render_with_gaps(tokens, gap, every, offset, width, lead):
+    """-> (text, [(start, end)] per token)"""
+    out, spans = lead, []
+    for i, t in enumerate(tokens):
+        if i > 0:
+            g = (gap * width) if (i % every == offset) else " "
+            if g.strip(" \t\n\r,\ufeff") == "" and g.replace("\ufeff", "").replace(",", "x") == "" and needs_space(tokens[i - 1], t):
+                g = " "
+            if g == "" and needs_space(tokens[i - 1], t):
+                g = " "
+            if "\ufeff" in g and g.replace("\ufeff", "") == "" and needs_space(tokens[i - 1], t):
+                g = g + " "
+            out += g
+        spans.append((len(out), len(out) + len(t[3])))
+        out += t[3]
+    return out, spans
+
+
+def parse_entry(entry, text, **kw):
+    return parse(text, allow_type_system="_ts" in entry, experimental_fragment_variables="fragvars" in entry, **kw)
+
+
+def nodes_of(node, out):
+    out.append(node)
+    for slot in getattr(node, "__slots__", ()):
+        if slot in ("source", "loc"):
+            continue
+        v = getattr(node, slot, None)
+        if isinstance(v, A.Node):
+            nodes_of(v, out)
+        elif isinstance(v, list):
+            for x in v:
+                if isinstance(x, A.Node):
+                    nodes_of(x, out)
+    return out
+
+
+def strip_loc(d):
+    if isinstance(d, dict):
+        return {k: strip_loc(v) for k, v in d.items() if k != "loc"}
+    if isinstance(d, list):
+        return [strip_loc(x) for x in d]
+    return d
+
+
+def reparse_span(entry, node, text):
+    """the spanned text parses back to an equal node (for the kinds with a standalone or wrappable syntax); None = not applicable"""
+    a, b = node.loc
+    span = text[a:b]
+    try:
+        if isinstance(node, (A.Value, A.Variable)) and not isinstance(node, A.ObjectField):
+            back = parse_value(span)
+        elif isinstance(node, A.Type):
+            back = parse_type(span)
+        elif isinstance(node, (A.Field, A.FragmentSpread, A.InlineFragment)):
+            back = parse("{ " + span + " }").definitions[0].selection_set.selections[0]
+        elif isinstance(node, A.SelectionSet):
+            back = parse(span).definitions[0].selection_set
+        elif isinstance(node, A.Definition):
+            back = parse_entry("document_ts_fragvars", span).definitions[0]
+        elif isinstance(node, A.Document):
+            back = parse_entry("document_ts_fragvars", span)
+        else:
+            return None
+    except Exception:  # noqa
+        return False
+    return strip_loc(back.to_dict()) == strip_loc(node.to_dict())
+
+
+def _spans(src: int, gap: int, every: int, offset: int, width: int, lead: int, noloc: bool) -> bool:
+    """
+    pre: 0 <= src < len(SPAN_SOURCES) and 0 <= gap < len(GAPS) and 1 <= every <= 3 and 0 <= offset < every and 1 <= width <= 2 and 0 <= lead <= 2
+    pre: shard_of(gap)
+    post: _
+    """
+    entry, canonical = pick(src, SPAN_SOURCES)
+    toks = _SPAN_TOKENS[concrete_int(src, 0, len(SPAN_SOURCES) - 1)]
+    G, E, O, W = pick(gap, GAPS), concrete_int(every, 1, 3), concrete_int(offset, 0, 2), concrete_int(width, 1, 2)
+    LEAD = ("", " \n", "\ufeff#x\n")[concrete_int(lead, 0, 2)]
+    NL = True if noloc else False
+    with untraced():
+        text, spans = render_with_gaps(toks, G, E, O, W, LEAD)
+        base_text, base_spans = render_with_gaps(toks, " ", 1, 0, 1, "")
+        base = parse_entry(entry, base_text)
+        tree = parse_entry(entry, text, no_location=NL)
+        ok = strip_loc(tree.to_dict()) == strip_loc(base.to_dict())
+        base_nodes, nodes = nodes_of(base, []), nodes_of(tree, [])
+        ok = ok and len(base_nodes) == len(nodes)
+        starts = {a: i for i, (a, b) in enumerate(base_spans)}
+        ends = {b: i for i, (a, b) in enumerate(base_spans)}
+        if ok:
+            for bn, n in zip(base_nodes, nodes):
+                if n.source is not text and n.source != text:
+                    ok = False
+                    break
+                if NL:
+                    if n.loc is not None:
+                        ok = False
+                        break
+                    continue
+                if isinstance(bn, A.Document):
+                    # SOF .. EOF
+                    if tuple(n.loc) != (0, len(text)):
+                        ok = False
+                        break
+                    continue
+                ba, bb = bn.loc
+                if ba not in starts or bb not in ends:
+                    ok = False          # a span must begin at a token start and end at a token end
+                    break
+                i, j = starts[ba], ends[bb]
+                if tuple(n.loc) != (spans[i][0], spans[j][1]):
+                    ok = False          # same token range, whatever the ignorable characters in between
+                    break
+                r = reparse_span(entry, n, text)
+                if r is False:
+                    ok = False
+                    break
+    return result(ok, True)
+
+
 CONDITIONS = [
+    Cond(
+        name="spans", fn=_spans, quick=150, thorough=400, per_path=60, shards_quick=10, shards_thorough=10,
+        bound="3 documents covering every node kind x 10 ignorable gap strings (space, nothing, comma, LF, tab, CRLF, comment, BOM, ' , ', CR) placed at every 1st/2nd/3rd token boundary x width 1..2 x 3 leading prefixes x no_location: "
+              "same tree as the single-space spelling, every span = (start of the node's first token, end of its last token) computed by the generator's offset arithmetic, Document = (0, len), the spanned text parses back to an equal node, loc None when disabled",
+        symbolic={"src": "choice", "gap,every,offset,width,lead": "choice: where which ignorable characters go", "noloc": "choice"},
+        assumptions=["token boundaries from the reference lexer; the token range of a node is taken from the single-space spelling and validated by re-parsing the spanned text"],
+        witness={"src": 0, "gap": 0, "every": 1, "offset": 0, "width": 1, "lead": 0, "noloc": False},
+    ),
     Cond(
         name="block_value", fn=_block_value, quick=90, thorough=900, per_path=30,
         bound="every raw block-string content of <= 3 source characters", bound_thorough="... <= 4 source characters",
